@@ -447,3 +447,36 @@ def seg_const(ctx, L, rule="R-SEG-CONST", rule_seq="R-SEQ-BASE"):
     for mode in ("SENDING_IN_CTS", "SENDING_BM"):
         if not any(m == mode for m, _ in found):
             ctx.unknown(rule, "21 %s packetiser: no DT send path recognised" % mode)
+
+
+def refresh(ctx, L, rule="R-REFRESH"):
+    """every data packet that is appended without completing the message re-arms the session's deadline"""
+    from .flow import TIME, RxNames
+    N = RxNames(L)
+    E = N.E
+    Pd = sub(E, "data")
+    f = L.dt
+    n = 0
+    for r in runs(ctx, f):
+        ext = [(i, e) for i, e in r.effects() if e.kind == "call" and e.value[1] == ("attr", Pd, "extend")]
+        if not ext:
+            continue
+        complete = any((not p) and g == mk_cmp("<", lensym(Pd), sub(E, "message_size")) for g, p in lits(r.guards()))
+        if complete:
+            continue
+        n += 1
+        st = [e for i, e in r.effects() if e.kind == "store" and e.target == sub(E, "deadline") and i >= ext[0][0]]
+        cts = bool(L.calls(r, "__send_tp_cts"))
+        inst = "%s DT appended, message incomplete%s: deadline re-armed" % (L.tag, " (CTS sent)" if cts else "")
+        ok = False
+        for e in st:
+            d = affine_diff(e.value, TIME)
+            if d is not None and not d[0] and 0 < float(d[1]) <= 1.25 + 1e-9:
+                ok = True
+        if ok:
+            ctx.holds(rule, inst)
+        else:
+            ctx.violated(rule, f, inst, "a received data packet does not push the session's deadline forward: a transfer that takes longer than the "
+                         "timeout armed at its start (long BAM, many windows) is cut off although packets keep arriving", ext[0][1].node)
+    if n < 2:
+        ctx.unknown(rule, "incomplete-append paths not found in %s (%d)" % (f.qual, n))
